@@ -10,7 +10,7 @@ N = int(sys.argv[1]) if len(sys.argv) > 1 else 300000
 procs = []
 for k in range(14):
     tp = os.path.join(wd, "t%d.ndjson" % k)
-    procs.append((tp, subprocess.Popen([binp, "-mode", "real", "-n", str(N), "-seed", str(424200 + k * 7919), "-what", "raw", "-maxlen", "9000", "-trace", tp],
+    procs.append((tp, subprocess.Popen([binp, "-mode", "real", "-n", str(N), "-seed", str(int(sys.argv[2] if len(sys.argv) > 2 else 424200) + k * 7919), "-what", "raw", "-maxlen", "9000", "-trace", tp, "-enum", "%d/14/1" % k],
                                        env=vlib.goenv(), stdout=subprocess.DEVNULL, stderr=subprocess.DEVNULL)))
 files = collections.defaultdict(lambda: collections.Counter())
 examples = {}
@@ -31,8 +31,17 @@ for tp, p in procs:
             files[fl][fn] += 1
             examples.setdefault(fl, e["in"][:80])
     os.remove(tp)
+known = set()
+for l in open(os.path.join(os.path.dirname(os.path.abspath(__file__)), "..", "known_findings.jsonl")):
+    if l.startswith("{"):
+        d = json.loads(l)
+        if d.get("property") == "C19" and "file" in d.get("match", {}):
+            known.add(d["match"]["file"])
 for fl in sorted(files):
     fns = sorted(files[fl])
+    if fl in known:
+        continue
+    print("NEW", fl, dict(files[fl]), examples[fl])
     print(json.dumps({"id": "C19-" + fl.replace("/", "-"), "property": "C19",
                       "what": "decoders in %s panic instead of returning an error on malformed/truncated input when recovery is off (%s); e.g. input %s" % (fl, ", ".join(f.replace("layers.", "") for f in fns), examples[fl]),
                       "match": {"reason": "panic-no-recovery", "file": fl}}))
